@@ -99,12 +99,23 @@ func VerifC10Vars(mask, viaStage int) {
 		t.Variables = variables.FromMap(map[string]string{"X": val[2]})
 	}
 	c10Cfg.Tasks["t1"] = t
+	second := false
 	if viaStage == 1 {
-		st := &scheduler.Stage{Name: "s1", Task: t, Env: variables.NewVariables(), Variables: variables.NewVariables()}
+		// every stage gets its own (shallow) copy of the task, as the configuration builder makes it
+		tc1 := *t
+		st := &scheduler.Stage{Name: "s1", Task: &tc1, Env: variables.NewVariables(), Variables: variables.NewVariables()}
 		if has[3] {
 			st.Variables = variables.FromMap(map[string]string{"X": val[3]})
 		}
-		g, err := scheduler.NewExecutionGraph(st)
+		stages := []*scheduler.Stage{st}
+		// optionally a second stage of the same task, after the first, that sets nothing at stage level:
+		// for it the stage level is absent
+		if has[3] && rt.Bool("a-second-stage-of-the-same-task-without-stage-variables") {
+			second = true
+			tc2 := *t
+			stages = append(stages, &scheduler.Stage{Name: "s2", Task: &tc2, DependsOn: []string{"s1"}, Env: variables.NewVariables(), Variables: variables.NewVariables()})
+		}
+		g, err := scheduler.NewExecutionGraph(stages...)
 		rt.Assert(err == nil, "C10.graph-built")
 		c10Cfg.Pipelines["p1"] = g
 		vArgv = vArgs{"p1"}
@@ -122,6 +133,27 @@ func VerifC10Vars(mask, viaStage int) {
 		if has[l] {
 			want, defined = val[l], true
 		}
+	}
+	if second {
+		rt.Assert(len(c10Renders) == 2, "C10.command-rendered-once-per-stage")
+		if len(c10Renders) != 2 {
+			return
+		}
+		w2, d2 := "", false
+		for l := 0; l < 3; l++ {
+			if has[l] {
+				w2, d2 = val[l], true
+			}
+		}
+		r2 := c10Renders[1]
+		rt.Assert(r2.HasX == d2, "C10.second-stage.variable-defined-iff-a-level-below-the-stage-defines-it")
+		if d2 && r2.HasX {
+			got2, _ := r2.X.(string)
+			rt.Assert(got2 == w2, "C10.second-stage.another-stage's-value-is-not-this-stage's")
+		}
+		rt.Assert((err != nil) == !d2, "C10.second-stage.run-fails-iff-its-variable-is-undefined")
+		rt.Cover("C10.two-stages-of-one-task")
+		return
 	}
 	rt.Assert(len(c10Renders) == 1, "C10.command-rendered-once")
 	if len(c10Renders) != 1 {
